@@ -1,4 +1,5 @@
 /* ghost state and callee models for U-mkdeps */
 #include "strmodel.h"
 char *g_buf; size_t g_len;
+size_t g_k; /* ghost index: arbitrary but fixed (stands for a universal quantifier) */
 unsigned __int128 g_errors, g_starts, g_ends, g_deps; /* ghost event counters (wide: cannot wrap) */
